@@ -133,7 +133,7 @@ Record cfg := mkCfg {
 }.
 
 Inductive outcome :=
-  Done | ErrStatus | ErrCType | ErrDecode | ErrCallback | ErrLink | ErrResolve | OutOfFuel.
+  Done | ErrStatus | ErrCType | ErrDecode | ErrCallback | ErrLink | ErrResolve | ErrSize | OutOfFuel.
 
 Record trace := mkTrace { t_reqs : list url; t_pages : list (list item); t_out : outcome }.
 
@@ -285,6 +285,19 @@ Section Registry.
            (if more then c_lt :: render i rq (mkUrl (u_path rq) lq) ++ c_gt :: trailer i else [])
            (d_fhdr d) (d_fann d).
 End Registry.
+
+(* ---------- referrers tag schema (referrersByTagSchema + referrersFromIndex) ---------- *)
+
+(* found: the referrers tag exists; size: the size of the index (Content-Length);
+   items: what the whole index lists *)
+Definition tag_schema (limit : Z) (found : bool) (size : Z) (items : list item) (at_ : str)
+           (cb_fail : nat -> bool) : list (list item) * outcome :=
+  if negb found then ([], Done)
+  else if limit_size_rejects limit size then ([], ErrSize)
+  else match filter_referrers items at_ with
+       | [] => ([], Done)
+       | f => if cb_fail 0%nat then ([f], ErrCallback) else ([f], Done)
+       end.
 
 (* ---------- content/oci listTags ---------- *)
 
